@@ -24,6 +24,7 @@ from dask.array.core import (
     check_if_handled_given_other,
     finalize,
     getter_inline,
+    is_scalar_for_elemwise,
 )
 from dask.array.dispatch import concatenate_lookup
 from dask.array.utils import meta_from_array
@@ -925,7 +926,8 @@ def elemwise(op, *args, out=None, where=True, dtype=None, name=None, **kwargs):
     args = [np.asarray(a) if isinstance(a, (list, tuple)) else a for a in args]
 
     # TODO(expr-soon): We should probably go through blockwise here
-    args = [asanyarray(a) for a in args]
+    # scalars stay scalars: NumPy promotes them by value/weakly (int32 + 1 is int32)
+    args = [a if is_scalar_for_elemwise(a) else asanyarray(a) for a in args]
 
     return new_collection(Elemwise(op, dtype, name, where, *args))
 
